@@ -183,3 +183,160 @@ Proof.
   destruct (status_eqb (a_status a) StandBy) eqn:Es; cbn [negb] in Hh; [|discriminate Hh].
   apply status_eqb_eq in Es. exact (Hst Es).
 Qed.
+
+(* ================================================================== C11 *)
+Lemma check_basic_modify who id bid_id price coin c :
+  check_basic (MModifyBid who id bid_id price coin) = Some c <->
+  exists up u p d amt,
+    who = AGood up u /\ price = Some p /\ 0 < p /\ mc_denom coin = Some d /\ mc_amt coin = Some amt /\
+    0 < amt /\ c = CModifyBid u id bid_id p d amt.
+Proof.
+  unfold check_basic, check_pos, check_coin. split.
+  - intros H. destruct who as [up u|]; [|discriminate H].
+    destruct price as [p|]; [|discriminate H].
+    destruct (0 <? p) eqn:Ep; [|discriminate H].
+    destruct (mc_denom coin) as [d|]; [|discriminate H].
+    destruct (mc_amt coin) as [amt|]; [|discriminate H].
+    destruct (0 <? amt) eqn:Ea; [|discriminate H].
+    apply Z.ltb_lt in Ep. apply Z.ltb_lt in Ea. inversion H.
+    exists up, u, p, d, amt. repeat split; assumption.
+  - intros (up & u & p & d & amt & -> & -> & Hp & -> & -> & Ha & ->).
+    apply Z.ltb_lt in Hp. apply Z.ltb_lt in Ha. rewrite Hp, Ha. reflexivity.
+Qed.
+
+Theorem C11_modify_iff_proof s who id bid_id price coin :
+  WF s ->
+  (fst (deliver_tx s (MModifyBid who id bid_id price coin)) = Accepted <->
+   exists up u p d amt a b,
+     (* a well-formed message *)
+     who = AGood up u /\ price = Some p /\ 0 < p /\ mc_denom coin = Some d /\ mc_amt coin = Some amt /\ 0 < amt /\
+     (* a started batch auction and one of the signer's bids in it *)
+     find_auction s id = Some a /\ find_bid s id bid_id = Some b /\
+     a_type a = Batch /\ a_status a = Started /\ b_bidder b = u /\
+     (* the new terms *)
+     a_min_price a <= p /\ d = b_denom b /\ b_price b <= p /\ b_amt b <= amt /\
+     (b_price b < p \/ b_amt b < amt) /\
+     (* the signer can pay the increase of the reservation *)
+     pay_amount (a_pay_denom a) (set_b_terms b p amt) - pay_amount (a_pay_denom a) b
+       <= st_bal s (User u) (a_pay_denom a) /\
+     no_veto s H_BeforeBidModified = true).
+Proof.
+  intros W. rewrite accepted_deliver. split.
+  - intros (c & Hc & Hok). apply check_basic_modify in Hc.
+    destruct Hc as (up & u & p & d & amt & Hw & Hpr & Hp & Hd & Ham & Ha & ->).
+    cbn [handle] in Hok. apply (modify_ok_iff s u id bid_id p d amt W) in Hok.
+    unfold modify_precond in Hok.
+    destruct (find_auction s id) as [a|] eqn:Ea; [|discriminate Hok].
+    destruct (find_bid s id bid_id) as [b|] eqn:Eb; [|discriminate Hok].
+    b2p; exists up, u, p, d, amt, a, b; repeat split; try assumption; try lia; try congruence.
+  - intros (up & u & p & d & amt & a & b & Hw & Hpr & Hp & Hd & Ham & Ha & Ea & Eb & Hty & Hst & Hu & Hmin &
+            Hden & Hpl & Hal & Hstrict & Hfunds & Hv).
+    exists (CModifyBid u id bid_id p d amt). split.
+    + apply check_basic_modify. exists up, u, p, d, amt. repeat split; assumption.
+    + cbn [handle]. apply (modify_ok_iff s u id bid_id p d amt W). unfold modify_precond.
+      rewrite Ea, Eb. p2b; try assumption; try lia; try congruence.
+Qed.
+
+Lemma modify_bank_store s u id pd diff :
+  st_params (modify_bank s u id pd diff) = st_params s /\ st_auctions (modify_bank s u id pd diff) = st_auctions s /\
+  st_bids (modify_bank s u id pd diff) = st_bids s /\ st_allowed (modify_bank s u id pd diff) = st_allowed s /\
+  st_vqs (modify_bank s u id pd diff) = st_vqs s /\ st_aseq (modify_bank s u id pd diff) = st_aseq s /\
+  st_bseq (modify_bank s u id pd diff) = st_bseq s /\ st_mlen (modify_bank s u id pd diff) = st_mlen s /\
+  st_now (modify_bank s u id pd diff) = st_now s /\ st_listeners (modify_bank s u id pd diff) = st_listeners s /\
+  st_switch (modify_bank s u id pd diff) = st_switch s.
+Proof. unfold modify_bank. destruct (0 <? diff); repeat split; reflexivity. Qed.
+
+Theorem C11_effects_proof s up u id bid_id p d amt a b :
+  WF s -> bids_pos s ->
+  let m := MModifyBid (AGood up u) id bid_id (Some p) {| mc_denom := Some d; mc_amt := Some amt |} in
+  fst (deliver_tx s m) = Accepted -> find_auction s id = Some a -> find_bid s id bid_id = Some b ->
+  let s' := snd (deliver_tx s m) in
+  let b' := set_b_terms b p amt in
+  let pd := a_pay_denom a in
+  let diff := pay_amount pd b' - pay_amount pd b in
+  (* the bid carries the new terms, everything else about it is unchanged *)
+  find_bid s' id bid_id = Some b' /\
+  b_auction b' = b_auction b /\ b_id b' = b_id b /\ b_bidder b' = b_bidder b /\ b_type b' = b_type b /\
+  b_denom b' = b_denom b /\ b_matched b' = b_matched b /\ b_price b' = p /\ b_amt b' = amt /\
+  (* no bid is removed or added, every other bid is unchanged *)
+  st_bids s' = map (fun x => if N.eqb (b_auction x) id && N.eqb (b_id x) bid_id then b' else x) (st_bids s) /\
+  length (st_bids s') = length (st_bids s) /\
+  (forall i j, i <> id \/ j <> bid_id -> find_bid s' i j = find_bid s i j) /\
+  (* the rest of the store is unchanged *)
+  st_params s' = st_params s /\ st_auctions s' = st_auctions s /\ st_allowed s' = st_allowed s /\
+  st_vqs s' = st_vqs s /\ st_aseq s' = st_aseq s /\ st_bseq s' = st_bseq s /\ st_mlen s' = st_mlen s /\
+  st_now s' = st_now s /\ st_listeners s' = st_listeners s /\ st_switch s' = st_switch s /\
+  (* the reservation never decreases; exactly its increase is moved into the paying escrow *)
+  0 <= diff /\
+  st_xfers s' = st_xfers s ++
+                (if 0 <? diff
+                 then [{| x_from := User u; x_to := Escrow Paying id; x_denom := pd; x_amt := diff |}]
+                 else []) /\
+  st_bal s' (User u) pd = st_bal s (User u) pd - diff /\
+  st_bal s' (Escrow Paying id) pd = st_bal s (Escrow Paying id) pd + diff.
+Proof.
+  intros W Hpos. cbv zeta. intros Hacc Ea Eb.
+  destruct (deliver_accepted_inv _ _ Hacc) as (c & s1 & Hc & Hh & Hs). rewrite Hs. clear Hs.
+  apply check_basic_modify in Hc.
+  destruct Hc as (up' & u' & p' & d' & amt' & Hw & Hpr & Hp & Hd & Ham & Hamt & ->).
+  cbn [mc_denom mc_amt] in Hd, Ham.
+  injection Hw as Hup Hu. injection Hpr as Hpp. injection Hd as Hdd. injection Ham as Haa.
+  subst up' u' p' d' amt'. cbn [handle] in Hh.
+  (* the acceptance conditions *)
+  assert (Hok : is_ok (modify_bid s u id bid_id p d amt)) by (exists s1; exact Hh).
+  apply (modify_ok_iff s u id bid_id p d amt W) in Hok. unfold modify_precond in Hok.
+  rewrite Ea, Eb in Hok.
+  destruct (modify_effect s u id bid_id p d amt a b s1 W Ea Eb Hh) as (cs & ->).
+  destruct (find_bid_key _ _ _ _ Eb) as (Hba & Hbi & Hin).
+  destruct (find_auction_id _ _ _ Ea) as (_ & Hina).
+  destruct (modify_bank_store s u id (a_pay_denom a)
+              (pay_amount (a_pay_denom a) (set_b_terms b p amt) - pay_amount (a_pay_denom a) b))
+    as (E1 & E2 & E3 & E4 & E5 & E6 & E7 & E8 & E9 & E10 & E11).
+  set (diff := pay_amount (a_pay_denom a) (set_b_terms b p amt) - pay_amount (a_pay_denom a) b) in *.
+  assert (Hdiff : 0 <= diff).
+  { assert (Hfacts : a_type a = Batch /\ b_price b <= p /\ b_amt b <= amt).
+    { clear - Hok. b2p; repeat split; assumption. }
+    destruct Hfacts as (Hty & Hc3 & Hc2).
+    assert (Hfa : find_auction s (b_auction b) = Some a) by (rewrite Hba; exact Ea).
+    destruct (Hpos b Hin) as [Hbp Hbam].
+    subst diff.
+    destruct (wf_batch_bids s W b a Hin Hfa Hty) as [[Hbt Hbd]|[Hbt Hbd]].
+    - rewrite (pay_amount_same (a_pay_denom a) b Hbd).
+      rewrite (pay_amount_same (a_pay_denom a) (set_b_terms b p amt) Hbd).
+      cbn [set_b_terms b_amt]. lia.
+    - pose proof (wf_denoms s W a Hina) as Hden.
+      assert (Hne : b_denom b <> a_pay_denom a) by congruence.
+      rewrite (pay_amount_other (a_pay_denom a) b Hne).
+      rewrite (pay_amount_other (a_pay_denom a) (set_b_terms b p amt) Hne).
+      cbn [set_b_terms b_amt b_price].
+      pose proof (pay_of_qty_mono (b_amt b) (b_price b) amt p ltac:(lia) ltac:(lia) Hc2 Hc3). lia. }
+  assert (Hbids : st_bids (put_bid (with_trace (modify_bank s u id (a_pay_denom a) diff) (st_trace s ++ cs))
+                             (set_b_terms b p amt))
+                  = map (fun x => if N.eqb (b_auction x) id && N.eqb (b_id x) bid_id
+                                  then set_b_terms b p amt else x) (st_bids s)).
+  { sp. rewrite E3. cbn [set_b_terms b_auction b_id]. rewrite Hba, Hbi. reflexivity. }
+  split.
+  { unfold find_bid. rewrite Hbids.
+    rewrite (find_map_hit (fun x => N.eqb (b_auction x) id && N.eqb (b_id x) bid_id) (set_b_terms b p amt)).
+    - unfold find_bid in Eb. rewrite Eb. reflexivity.
+    - cbn [set_b_terms b_auction b_id]. rewrite Hba, Hbi, !N.eqb_refl. reflexivity. }
+  do 8 (split; [reflexivity|]).
+  split; [exact Hbids|].
+  split; [rewrite Hbids; apply map_length|].
+  split.
+  { intros i j Hij. unfold find_bid. rewrite Hbids. apply find_map_miss.
+    - cbn [set_b_terms b_auction b_id]. rewrite Hba, Hbi. apply andb_false_iff.
+      destruct Hij as [Hi|Hj]; [left|right]; apply N.eqb_neq; congruence.
+    - intros x Hx. apply andb_true_iff in Hx. destruct Hx as [Hx1 Hx2].
+      apply N.eqb_eq in Hx1. apply N.eqb_eq in Hx2. apply andb_false_iff.
+      destruct Hij as [Hi|Hj]; [left|right]; apply N.eqb_neq; congruence. }
+  sp. do 10 (split; [assumption|]).
+  split; [exact Hdiff|].
+  unfold modify_bank. destruct (0 <? diff) eqn:Ed; sp.
+  - split; [reflexivity|]. split.
+    + rewrite move_from by reflexivity. rewrite N.eqb_refl. reflexivity.
+    + unfold move, bal_upd. rewrite addr_eqb_refl, N.eqb_refl. cbn [andb].
+      replace (addr_eqb (Escrow Paying id) (User u)) with false by reflexivity. cbn [andb]. reflexivity.
+  - apply Z.ltb_ge in Ed. assert (diff = 0) as -> by lia.
+    split; [rewrite app_nil_r; reflexivity|]. split; lia.
+Qed.
